@@ -360,6 +360,39 @@ def r07d(P, R):
         ok = b[0] == "seq" and b[1][0] == ("str", word) and b[1][1] == ("neg", ("id", "NameContinue")) and rules[n][0] == "@"
         R.check("R07-d", "keyword:" + word, ok, "`%s` not followed by a name character" % word, "%s is %r" % (n, b))
     R.floor("R07-d", "keywords", len(kws), 21)
+    # a negative look-ahead placed in front of a name (`!(true | false | null) ~ Name`, `!from ~ Name`) must exclude whole words only:
+    # every alternative that can match the beginning of a name has to end with the name-continuation guard, or it also rejects every
+    # name that merely starts with the word — decided on what the alternative accepts (its trailing look-aheads), not on its spelling
+    name_start = g._sure_start(("id", "NameStart"))[0] if "NameStart" in rules else set("_")
+    name_cont = g._sure_start(("id", "NameContinue"))[0] if "NameContinue" in rules else set("_")
+    seen_guard = 0
+    for rn in g.order:
+        for sq in [x for x in _walk(body(rn)) if x[0] == "seq"]:
+            items = sq[1]
+            for i, x in enumerate(items):
+                if x[0] != "neg":
+                    continue
+                nxt = [y for y in items[i + 1:] if y[0] not in ("neg", "pos")]
+                if not nxt or not (g.first(nxt[0])[0] and g.first(nxt[0])[0] <= name_start):
+                    continue
+                for alt in flat_choice(x[1]):
+                    if not (g.first(alt)[0] & name_start):
+                        continue
+                    seen_guard += 1
+                    ends = [e3 for e3 in g.trailing_excluded(alt) if not e3[2]]
+                    open_ = sorted({ch for s_, m_, z in ends for ch in name_cont - s_ - m_})
+                    unsure = sorted({ch for s_, m_, z in ends for ch in (name_cont - s_) & m_})
+                    key = "word-lookahead:%s:%s" % (rn, alt[1] if alt[0] in ("id", "str") else "alt%d" % seen_guard)
+                    if open_:
+                        R.violated("R07-d", key, "in %s the look-ahead `!%s` in front of a name is not closed by the name-continuation guard: a name "
+                                   "that merely starts with that word (e.g. the word followed by %s) is rejected there, so valid input is parsed "
+                                   "differently (the alternative is skipped or the enclosing rule fails)" % (rn, alt[1] if alt[0] in ("id", "str") else "…",
+                                                                                                          _chars(open_[:3])))
+                    elif unsure:
+                        R.undecided("R07-d", key, "whether the look-ahead in %s excludes whole words only is not decided" % rn)
+                    else:
+                        R.holds("R07-d", key, "excludes the whole word only")
+    R.floor("R07-d", "word look-aheads in front of names", seen_guard, 4)
     # directive locations
     ex = g.text_lang("ExecutableDirectiveLocation")
     ty = g.text_lang("TypeSystemDirectiveLocation")
